@@ -801,7 +801,7 @@ def run(rep, tier, seed):
     counters: Dict[str, Dict[str, int]] = {}
     samples = 0
     t0 = time.time()
-    deadline = t0 + (1500 if tier == "thorough" else 400)
+    deadline = t0 + (2400 if tier == "thorough" else 900)   # safety net for an overloaded machine only
     for k in range(3, 8):        # built once, shared copy-on-write by the workers
         _trie_for(k)
     import gc
